@@ -46,6 +46,20 @@ impl Prop for C09 {
                 for g in c.gens.iter_mut() {
                     g.len = 1_100 + g.len % 1_400;
                 }
+                // overlap-save filters work in blocks of 2*nextpow2(ntaps) - ntaps samples: in
+                // half of their cases the input ends exactly on a block boundary (nothing is
+                // left in the stream when the last block has been taken in)
+                if let BlockSpec::FftFilter { taps } | BlockSpec::FftFilterFloat { taps } = &c.spec {
+                    let n = (taps.n as usize).max(1);
+                    let mut p = 1usize;
+                    while p < n {
+                        p <<= 1;
+                    }
+                    let ns = (2 * p - n).max(1) as u32;
+                    if c.gens[0].seed % 2 == 0 {
+                        c.gens[0].len = c.gens[0].len.div_ceil(ns) * ns;
+                    }
+                }
                 c
             });
         (
